@@ -54,7 +54,7 @@ class C16(Prop):
     pid = "C16"
     prop_file = "Props/C16.v"
     module = "Props.C16"
-    gen_deps = ["Adapters", "AdaptersFn", "YansiFn", "TermcolorFn"]
+    gen_deps = ["Adapters", "AdaptersFn", "YansiFn", "TermcolorFn", "AnsiTermFn", "OwoFn", "CrosstermFn", "Style", "Render"]
     harness = ("h-adapters", "hadapters")
     nontrivial_rule = (
         "Case kinds: adm = meaning-table validation (one colour constructor or attribute, built with the target library's own API, rendered by the library; "
